@@ -573,6 +573,7 @@ def _impure_call_in (exprs):
         f = n.func
         if isinstance(f, ast.Attribute) and f.attr in LOGGING and _base_text(f.value).split('.')[-1] in ('log', 'logger', 'logging'): continue
         if isinstance(f, ast.Attribute) and f.attr in LOG_ANY_RECEIVER: continue
+        if isinstance(f, ast.Attribute) and (f.attr.startswith('is_') or f.attr.startswith('has_') or (f.attr.startswith('is') and f.attr[2:3].isupper()) or (f.attr.startswith('has') and f.attr[3:4].isupper())): continue   # predicates
         if isinstance(f, ast.Name) and f.id == 'print': continue
         if isinstance(f, ast.Name) and f.id in PURE_FUNCS: continue
         if isinstance(f, ast.Attribute) and f.attr in PURE_METHODS: continue
@@ -648,6 +649,42 @@ def _pure_without (expr, hole):
       return False
   return True
 
+_CFG_CACHE = {}
+def _between_cfg (fn, ds, us):
+  """[(kind, ast)] of everything that can execute on a control-flow path from statement ds to statement us
+  (kinds: 'stmt' simple statement, 'expr' a test expression, 'for' loop target binding); None if unavailable"""
+  try:
+    from .cfg import CFG
+    key = id(fn)
+    ent = _CFG_CACHE.get(key)
+    if ent is None or ent[0] is not fn or ent[2] != sum(1 for _ in ast.walk(fn)):
+      g = CFG(fn); ent = (fn, g, sum(1 for _ in ast.walk(fn))); _CFG_CACHE.clear(); _CFG_CACHE[key] = ent
+    g = ent[1]
+    dn = [n for n in g.nodes if n.ast is ds]
+    un = [n for n in g.nodes if n.ast is us or (n.stmt is us and n.kind in ('cond', 'stmt', 'for'))]
+    if not dn or not un: return None
+    dn = dn[0]
+    fwd = g.reachable(dn, avoid=[dn])
+    # backward reachability from the use, not through the definition
+    bwd = set(un); st = list(un)
+    while st:
+      x = st.pop()
+      for p_, l_ in x.pred:
+        if p_ is dn or p_ in bwd: continue
+        bwd.add(p_); st.append(p_)
+    out = []
+    for n in fwd & bwd:
+      if n is dn or n in un or n.ast is None: continue
+      if n.kind in ('stmt', 'return', 'raise_stmt'):
+        if isinstance(n.ast, ast.stmt): out.append(('stmt', n.ast))
+        else: out.append(('expr', n.ast))
+      elif n.kind == 'cond': out.append(('expr', n.ast))
+      elif n.kind == 'for': out.append(('for', n.ast))
+      elif n.kind == 'handler': pass
+    return out
+  except Exception:
+    return None
+
 def expand_temps (fn, known_locals):
   """copy-propagate new single-assignment temporaries; returns number of uses replaced"""
   pre = _adjacent(fn, known_locals)
@@ -701,20 +738,38 @@ def expand_temps (fn, known_locals):
       if ui <= di: continue
       if uloops[:len(dloops)] != dloops: continue           # use must be inside every loop that encloses the def
       ok = True
-      # statements between def and use; plus whole bodies of loops entered after the def that contain the use
-      between = list(range(di + 1, ui))
-      for L in uloops[len(dloops):]:
-        for j, (s2, l2) in enumerate(lin):
-          if L in l2: between.append(j)
-      for j in set(between):
-        s2 = lin[j][0]
-        if isinstance(s2, ast.Raise): continue          # control leaves: nothing after it is reached through it
-        sn, sh = _stmt_effects(s2)
-        if sn & rnames: ok = False; break
-        if rheap:
-          if any(_overlap(a, b) for a in sh for b in rheap): ok = False; break
-          if _impure_call_in(_header_exprs(s2)): ok = False; break
-      if not ok: continue
+      flow = _between_cfg(fn, ds, us)
+      if flow is not None:
+        # what can execute on some control-flow path from the definition to the use
+        for kind, a_ in flow:
+          if kind == 'stmt':
+            if isinstance(a_, ast.Raise): continue
+            sn, sh = _stmt_effects(a_)
+            hx = _header_exprs(a_)
+          elif kind == 'for':
+            sn, sh = _stmt_effects(a_); hx = []
+          else:
+            sn, sh = set(), set(); hx = [a_]
+          if sn & rnames: ok = False; break
+          if rheap:
+            if any(_overlap(a, b) for a in sh for b in rheap): ok = False; break
+            if _impure_call_in(hx): ok = False; break
+        if not ok: continue
+      else:
+        # statements between def and use; plus whole bodies of loops entered after the def that contain the use
+        between = list(range(di + 1, ui))
+        for L in uloops[len(dloops):]:
+          for j, (s2, l2) in enumerate(lin):
+            if L in l2: between.append(j)
+        for j in set(between):
+          s2 = lin[j][0]
+          if isinstance(s2, ast.Raise): continue          # control leaves: nothing after it is reached through it
+          sn, sh = _stmt_effects(s2)
+          if sn & rnames: ok = False; break
+          if rheap:
+            if any(_overlap(a, b) for a in sh for b in rheap): ok = False; break
+            if _impure_call_in(_header_exprs(s2)): ok = False; break
+        if not ok: continue
       _replace_name(us, he, x, e)
       replaced += 1
     if replaced == len(uses):
